@@ -142,9 +142,10 @@ func checkC13(c *Ctx) {
 			}
 		}
 		n := 0
-		for _, s := range callsIn(cm, false, func(cc *ssa.CallCommon) bool { return calleeIs(cc, prune) }) {
+		for _, ds := range deepSites(fl, func(cc *ssa.CallCommon) bool { return calleeIs(cc, prune) }, 0) {
+			s := ds.Site
 			n++
-			ok := innerKey != "" && errNilOf(fl.At(s), is(innerKey))
+			ok := innerKey != "" && errNilOf(ds.Facts, is(innerKey))
 			c.Check(ok, "C13.8", "Committer.commit: pruning follows a successful commit of the chain", p.Pos(s.Pos()),
 				"PruneToHeight(committed, block.View()) is reached only under commitInner(...) == nil",
 				"PruneToHeight is reachable after commitInner failed: nothing up to block.View() was committed, yet the blocks on that chain are reported as abandoned (aborted to their clients) and are committed later")
